@@ -177,6 +177,19 @@ def _prefix_less(a, b, f):
     return a < b[:L] if L >= 4 else a < b
 
 
+def _cond_root(f, v, depth=0):
+    """the value a branch condition tests for truth: through icmp ne/eq 0, zext / trunc, xor true"""
+    while v['k'] == 'i' and depth < 8:
+        i = f.insts[v['id']]
+        if i.op == 'icmp' and const_of(i.ops[1]) == 0: v = i.ops[0]
+        elif i.op in ('zext', 'trunc', 'sext'): v = i.ops[0]
+        elif i.op == 'xor' and const_of(i.ops[1]) == 1: v = i.ops[0]
+        elif i.op == 'and' and const_of(i.ops[1]) is not None: v = i.ops[0]
+        else: break
+        depth += 1
+    return v
+
+
 def search_callsite(ctx, rep, cfgs=None):
     """C07 clause 5: lang_search's constants"""
     for cfg in cfgs or ctx.configs('path'):
@@ -214,6 +227,42 @@ def search_callsite(ctx, rep, cfgs=None):
                           '%s bsearch' % base_name(f.name), detail={'base_offsets': offs, 'nmemb': nmv, 'size': szv, 'words_offset': woff},
                           sample={'site': i.loc, 'nmemb': nmv, 'size': szv})
         rep.instances(n, 1, 'bsearch call sites')
+        # the binary search is applied only where the table says it is sorted
+        from .rules_cmp import _field_of
+        for f in P.defined.values():
+            dom = None
+            for i, t in P.calls(f):
+                if t != ('direct', 'bsearch'): continue
+                dom = dom or f.dominators()
+                guarded = False; seen_cond = False
+                for b in dom[i.bb]:
+                    tb = f.blocks[b][-1]
+                    if tb.op != 'br' or len(tb.ops) != 3 or b == i.bb: continue
+                    s0, s1 = f.succs[b][0], f.succs[b][1]
+                    # the call's block is reachable from this branch only through one of the two successors
+                    via = [s_ for s_ in (s0, s1) if s_ == i.bb or s_ in dom[i.bb]]
+                    if len(via) != 1: continue
+                    seen_cond = True
+                    for (g2, v2, _) in P.leaves(f, _cond_root(f, tb.ops[0])):
+                        if _field_of(P, g2, v2) == 'is_sorted': guarded = True
+                    if guarded: break
+                rep.check(guarded, 'bsearch at %s is reached only under a test of the table\'s is_sorted flag (unsorted lists take the linear scan)' % i.loc, i.loc,
+                          '%s: binary search without consulting is_sorted' % base_name(f.name), detail={'conditional_dominators_seen': seen_cond}, key='TAB-5|sorted-guard|%s' % base_name(f.name))
+
+
+def word_storage(ctx, rep):
+    """TAB-0: every word is a NUL-terminated string inside its own storage"""
+    T = ctx.tables()
+    rep.rule('TAB-0', 'every word of every language table is a NUL-terminated string within its own storage (a string literal, or a fixed-width row that leaves room for the '
+             'terminator): C silently drops the terminator of a literal that exactly fills a char array, after which the word runs into the next row')
+    n = 0
+    for L in T.ordered():
+        n += 1
+        bad = getattr(L, 'unterminated', [])
+        rep.check(not bad, '%s: all %d words are NUL-terminated in their storage' % (L.sym, len(L.words)), where(L, bad[0]) if bad else where(L), '%s: %d word(s) fill their row without a terminator' % (L.sym, len(bad)),
+                  detail={'indices': bad[:8], 'first': L.words[bad[0]].decode('utf-8', 'replace') if bad else None, 'row_bytes': len(L.words[bad[0]]) if bad else None},
+                  sample={'language': L.sym, 'inline_rows': getattr(L, 'inline_rows', False)}, key='TAB-0|%s' % L.sym)
+    rep.instances(n, 10, 'languages')
 
 
 def phrase_size(ctx, rep):
